@@ -131,7 +131,9 @@ def _api_case(kind, spec, zero=None, keywords=None):
                 return
             E.fact('volume_mix_without_density_raises', False, note='returned %s' % r)
             return
+        snap = cm.Snapshot(components=[a for a in args if hasattr(a, 'structure')])
         r = fn(*args, **kw)
+        snap.check(E, 'mix')
         for c, q in zip(comps, eff):
             if q is None:
                 E.fact('zero_quantity_absent[%s]' % c['unique'], c['unique'] not in r.atoms)
